@@ -142,7 +142,7 @@ Definition asset_expr : Type := acomp * acomp * acomp.
 Definition expect_policy (c : acomp) : option bytes :=
   match c with ABytes b | AHash b => Some b | _ => None end.   (* a policy definition lowers to a Hash *)
 Definition expect_name (c : acomp) : option bytes :=
-  match c with ABytes b => Some b | AString b => Some b | _ => None end.
+  match c with ABytes b | AString b | AHash b => Some b | _ => None end.   (* a hash as a name is kept as bytes *)
 
 Definition of_expr (e : asset_expr) : outcome assets :=
   let '(p, n, amt) := e in
